@@ -6,10 +6,11 @@ import os, random, yaml
 
 BASE_LAT, BASE_LON = 39.7539, -104.9740
 
-def write(directory, seed):
+def write(directory, seed, delta=None):
     rng = random.Random(seed)
     os.makedirs(directory, exist_ok=True)
-    delta = rng.choice([30, 60, 60, 90])
+    delta0 = rng.choice([30, 60, 60, 90])
+    delta = delta or delta0      # a caller may force the step length (eng_c15: never the default 60)
     fleets = rng.choice([None, ['fa', 'fb'], ['fa', 'fb']])
     n_v = rng.randint(6, 12)
     # geometry: a 5x5 lattice ~350 m apart; symmetric placements create equal distances
